@@ -43,7 +43,7 @@ from hl7apy import get_default_version, get_default_encoding_chars, \
 from hl7apy.validation import Validator
 from hl7apy.exceptions import ChildNotFound, ChildNotValid, \
     MaxChildLimitReached, OperationNotAllowed, \
-    InvalidName, MessageProfileNotFound, LegacyMessageProfile
+    InvalidName, MessageProfileNotFound, LegacyMessageProfile, MaxLengthReached
 from hl7apy.factories import datatype_factory
 from hl7apy.base_datatypes import BaseDataType
 from hl7apy.consts import MLLP_ENCODING_CHARS
@@ -1237,6 +1237,15 @@ class SubComponent(CanBeVaries):
                 self._value = datatype_factory(self.datatype, value, self.version,
                                                self.validation_level)
             elif not value or isinstance(value, BaseDataType):
+                if isinstance(value, BaseDataType) and Validator.is_strict(self.validation_level):
+                    # under STRICT a datatype object is held to the same rules as text: it must be of the
+                    # subcomponent's datatype and not longer than that datatype allows
+                    if self.datatype not in (None, 'varies') and value.classname != self.datatype:
+                        raise ChildNotValid(value, self)
+                    max_length = getattr(value, 'max_length', None)
+                    if max_length is not None and value.value is not None and \
+                            len('{0}'.format(value.value)) > max_length:
+                        raise MaxLengthReached(value.value, max_length)
                 self._value = value
             else:
                 raise ValueError('Cannot assign {0}'.format(value.classname))
